@@ -49,6 +49,18 @@ class Final(Exception):
     raise TypeError("Final cannot be subclassed")
 
 
+def _factory_made():
+  """A NEW exception class per call; all of them share one module and one qualified name."""
+  class Local(Exception):
+    pass
+  return Local
+
+
+def _redefined():
+  """A class redefined under the name of a module-level class (as after a module reload)."""
+  return type("PlainError", (Exception,), {"__module__": __name__, "__qualname__": "PlainError"})
+
+
 SHAPES = {
     "plain": lambda: ValueError("boom plain"),
     "custom_class": lambda: PlainError("boom custom class"),
@@ -60,6 +72,8 @@ SHAPES = {
     "key_error": lambda: KeyError("missing-key"),
     "os_error": lambda: OSError(2, "No such file"),
     "stop_iteration": lambda: StopIteration("stop"),
+    "factory_made_class": lambda: _factory_made()("boom factory-made"),
+    "redefined_class": lambda: _redefined()("boom redefined"),
 }
 KNOWN_STOP_ITERATION = "C05/stop-iteration-becomes-runtime-error"
 
@@ -100,20 +114,24 @@ def crash_build(root, target, exc_factory, nested_probe=False):
   del c02.INVOKED[:]
   orig = building.call_buildable
   probe_result = []
+  armed = [False]
 
   def wrapper(buildable, arguments, *, current_path):
     c02.INVOKED.append(buildable)
-    if buildable is target:
-      if nested_probe:
-        def hook():
+    if nested_probe and (buildable is target or armed[0]):
+      # the target, and every Buildable invoked after it, tries a nested build twice and swallows
+      # the rejections: each attempt must be rejected
+      armed[0] = True
+      def hook():
+        for _ in range(2):
           try:
             fdl.build(fdl.Config(l2.fa, 1))
             probe_result.append("accepted")
           except Exception as e:  # pylint: disable=broad-except
             probe_result.append(type(e).__name__)
-        l2.IN_CALL_HOOK[0] = hook
-      else:
-        l2.FAIL_NOW[0] = exc_factory
+      l2.IN_CALL_HOOK[0] = hook
+    elif buildable is target:
+      l2.FAIL_NOW[0] = exc_factory
     return orig(buildable, arguments, current_path=current_path)
 
   building.call_buildable = wrapper
@@ -236,7 +254,7 @@ def one_dag(rng, res, intern, stream, root, label, shapes):
     out = crash_build(root, t, None, nested_probe=True)
     res.evaluations += 1
     res.count("nested-probe")
-    if out[2] != ["ValueError"]:
+    if not out[2] or set(out[2]) != {"ValueError"}:
       res.failures.append(Failure(None, f"C05 {label}: fdl.build inside a callable was {out[2]!r}",
                                   {"label": label, "root": repr(root)[:800]}))
     if building._state.in_build:  # pylint: disable=protected-access
@@ -267,8 +285,10 @@ def run(tier: str, seed: int) -> Result:
   rng = random.Random(seed * 32452843 + 5)
   res = Result()
   res.rule = ("every Config node of every generated DAG is used as the crash point in turn, with an exception "
-              "shape drawn from 10 (plain, custom __init__, __str__ override, __slots__, BaseException subclass, "
-              "non-subclassable, KeyError, OSError, StopIteration ...); distinct by hash of (heap, crash node, shape)")
+              "shape drawn from 12 (plain, custom __init__, __str__ override, __slots__, BaseException subclass, "
+              "non-subclassable, KeyError, OSError, StopIteration, a new class per failure sharing one qualified "
+              "name, a redefined class ...); nested fdl.build probes (two swallowed attempts in the target and "
+              "in every Buildable invoked after it); distinct by hash of (heap, crash node, shape)")
   intern = common.Interner()
   stream = Stream("c05_crash",
                   "From Fiddle Require Import PySlice Sig ArgStore PyCall Heap Traverse Build C05Check.",
